@@ -213,6 +213,8 @@ def cases(size, seed, limit):
     rng = random.Random(seed)
     # same functor name with two arities, and a Python string constant spelled like an atom: must never unify
     terms = mirror.enum_terms(size, funs=(('f', 1), ('g', 2), ('f', 2)), consts=(1, 'a'))
+    # the Python constants None / 0 / '' / False are constants like any other (never a wildcard, never 'unbound')
+    odd = [('const', None), ('const', 0), ('const', ''), ('const', False)]
     small = mirror.enum_terms(min(size, 2))
     pres = [[]]
     for v in range(3):
@@ -237,7 +239,10 @@ def cases(size, seed, limit):
                (dot(a, nil), dot(a, nil, nil)), (dot(a, dot(b, nil)), dot(a, dot(b, nil), c)), (dot(a, dot(b, nil)), dot(a, dot(b, dot(c, nil)))),
                (dot(a, v0), dot(a, dot(b, nil))), (dot(a, dot(b, v0)), dot(v1, dot(b, dot(c, nil)))), (dot(v0, v0), dot(a, b)),
                (dot(a, b, c), dot(a, b, c)), (dot(a, b, v0), dot(a, b, c)), (('fun', 'g', (a, b)), ('fun', 'g', (a, b, c)))]
-    allc = special + [(y, x) for x, y in special] + allc
+    leaves = [t for t in terms if t[0] != 'fun'][:8]
+    oddp = [(o, t) for o in odd for t in leaves + odd + [('fun', 'f', (o,)), ('fun', 'g', (('var', 0), o))]]
+    oddp += [(('fun', 'g', (('var', 0), ('var', 0))), ('fun', 'g', (o, ('const', 5)))) for o in odd]
+    allc = special + [(y, x) for x, y in special] + oddp + [(y, x) for x, y in oddp] + allc
     n = 0
     hows = ['exhaust', 'close', 'drop', 'throw']
     for (t1, t2) in allc:
